@@ -22,7 +22,8 @@ import c08_validate as val
 THEOREMS = ['C08_volume_str_counts', 'C08_write_wf', 'C08_prune_preserves_wf',
             'C08_prune_total', 'C08_convert_tail_wf', 'C08_convert_tail_wf_R',
             'C08_print_parse_roundtrip', 'C08_written_text_wf',
-            'C08_convert_tail_text_wf_R',
+            'C08_convert_tail_text_wf_R', 'C08_table_refs_linked',
+            'C08_convert_wf_linked', 'C08_convert_wf_surfaces_linked',
             'C08_numbers_given', 'C08_numbers_finite', 'C08_words_okb_sound',
             'C08_remove_empty_volumes_ok', 'C08_geomcomp_partition',
             'C08_bc_defined',
@@ -218,6 +219,14 @@ m1 1001 1.0
 m1 8016 1 1001 2
 m2 26000 -0.7 6012 -0.3
 ''', []),
+    'fortran_spelled_fraction_copied': ('''Fortran spellings of mass fractions copied into a DENSITY block (open, shared with C10)
+1 5 -1.0 -1 imp:n=1
+2 0 1 imp:n=0
+
+1 so 2
+
+m5 1001 -1.5d-1 8016 -8.5-1
+''', []),
     'bc_on_merged_duplicate': ('''flag carried by a surface merged into its duplicate
 1 1 -1.0 -1 2 imp:n=1
 2 0 1 : -3 imp:n=0
@@ -251,6 +260,10 @@ def classify(problem, conv, cap, rd, args):
             return 'negative_importance_no_composition'
         return None
     if clause == 'number':
+        m = re.match(r"composition \S+: amount '([^']+)' of ", msg)
+        if m and re.fullmatch(r'[\d.]+([dD][-+]?\d+|[-+]\d+)', m.group(1)) \
+                and m.group(1) in [a for _, fr, _ in cap.mats for _, a in fr]:
+            return 'fortran_spelled_fraction_copied'
         m = re.match(r"SURF (\d+): '(inf|-inf|nan)'", msg)
         if m:
             for surf in cap.surfs:
@@ -311,7 +324,8 @@ def make_case(conv, cap, args, verdict):
     open_flag = any((c[2] not in card_keys and c[2] != 0) or c[7] < 0
                     for c in cap.cells) \
         or any(v != v or v in (float('inf'), float('-inf'))
-               for surf in cap.surfs for v in surf[2])
+               for surf in cap.surfs for v in surf[2]) \
+        or any(not val.NUMBER.match(a) for _, fr, _ in cap.mats for _, a in fr)
     return f'({term},\n {obs}, {valid})', open_flag
 
 
@@ -370,7 +384,7 @@ def _run(res, tier, seed, proofs_ok, cov):
             meta.append((deck_text, args, conv.exc, verdict, made[1]))
 
     # ---- 2 + 3. generated decks: sweep and tie on the same runs ----
-    n_decks = 170 if tier == 'quick' else 1200
+    n_decks = 170 if tier == 'quick' else 1000
     for i in range(n_decks):
         dk, tags = gen.gen_deck(rng)
         deck_text = gen.render(dk)
@@ -476,6 +490,7 @@ def _run(res, tier, seed, proofs_ok, cov):
                       {'input': {'deck': deck_text, 'args': args},
                        'theorem_or_correspondence': 'tie:reader'},
                       found_input=False)
+    tables_stream(res, tier, rng)
     if errs:
         res.violation('correspondence',
                       'the generated correspondence files do not compile: '
@@ -503,10 +518,68 @@ def _run(res, tier, seed, proofs_ok, cov):
                       found_input=False)
 
 
+def tables_stream(res, tier, rng):
+    '''Malformed stream: synthetic tables (half of them outside every
+    hypothesis) through the real tail + writeT4Geometry and through the model.'''
+    import c08_tables as tab
+    n_tables = 150 if tier == 'quick' else 1000
+    cases, meta = [], []
+    for i in range(n_tables):
+        tables = tab.gen_tables(rng, malformed=i % 2 == 1)
+        cap = tab.capture_of(tables)
+        for skip_dedup in (False, True):
+            exc, text = tab.run_impl(tables, skip_dedup)
+            args = tab.ARGS + (['--skip-deduplication'] if skip_dedup else [])
+            valid = True
+            if text is not None:
+                valid = not exc and not val.validate(
+                    text, want_comp=False, want_geomcomp=False)[0]
+            res.count('tables:' + (exc or 'ok') + (':file' if text is not None
+                                                   else ':no-file'))
+            res.seen(('tables', repr(tables), skip_dedup))
+            term = cap_mod.coq_input(cap, args)
+            obs = cap_mod.coq_observed((exc, text))
+            cases.append(f'({term},\n {obs}, {cap_mod.cbool(valid)})')
+            meta.append((tables, skip_dedup, exc))
+    bad, errs = run_multi('c08_tab', ['check_file', 'check_verdict',
+                                      'check_reader'], cases)
+    n_bad = {k: len(v) for k, v in bad.items()}
+    res.obligation(f'tie:tables ({len(cases)} runs of the real tail of '
+                   'convertMCNPGeometry + writeT4Geometry on synthetic tables, '
+                   'half of them malformed: bytes and exception class = model; '
+                   'model and reader verdicts = validator)',
+                   not any(bad.values()) and not errs, f'{n_bad} {errs[:1]}')
+    for fun in bad:
+        for idx in bad[fun][:5]:
+            tables, skip_dedup, exc = meta[idx]
+            res.violation('correspondence',
+                          f'synthetic tables: {fun} fails (skip_dedup='
+                          f'{skip_dedup}, run raised {exc or "nothing"})',
+                          {'input': {'tables': tables, 'skip_dedup': skip_dedup},
+                           'theorem_or_correspondence': 'tie:tables'},
+                          found_input=False)
+    if errs:
+        res.violation('correspondence', 'tie:tables files do not compile: '
+                      + errs[0][-300:], {'errors': errs[:2]}, found_input=False)
+
+
 def replay(path):
     '''Re-run the recorded input through implementation, validator, model.'''
     data = json.load(open(path))
     inp = data.get('input', {})
+    if 'tables' in inp:
+        import c08_tables as tab
+        tables = inp['tables']
+        tables['vols'] = [tuple(v[:3]) + (None if v[3] is None else tuple(v[3]),)
+                          + (v[4],) for v in tables['vols']]
+        exc, text = tab.run_impl(tables, inp.get('skip_dedup', False))
+        print('implementation:', exc or 'no exception')
+        print(text)
+        args = tab.ARGS + (['--skip-deduplication'] if inp.get('skip_dedup') else [])
+        model, _ = common.coq_eval(HEADER, 'run_model ' + cap_mod.coq_input(
+            tab.capture_of(tables), args))
+        print('model:', model)
+        return 0
     deck_text, args = inp.get('deck'), inp.get('args', [])
     if deck_text is None:
         print('no deck recorded:', data.get('what'))
